@@ -11,11 +11,11 @@ NAMES = ["IntString", "FloatString", "BooleanString", "IsoDateString", "IsoTimeS
 ACTUAL = {"IntString": "int", "FloatString": "float", "BooleanString": "bool", "IsoDateString": "date", "IsoTimeString": "time",
           "IsoDatetimeString": "datetime"}
 
-DIG = ["0", "1", "7", "12", "007", "1234567890", "٣", "１２", "9" * 25]
+DIG = ["0", "1", "7", "12", "007", "1234567890", "٣", "１２", "9" * 25, "1" + "0" * 400, "9" * 310]
 SIGN = ["", "+", "-", "--", "+-"]
 WS = ["", " ", "\t", "\n", " ", " "]
 FRAGS_NUM = ["{s}{d}", "{s}{d}.{d}", "{s}.{d}", "{s}{d}.", "{s}{d}e{d}", "{s}{d}E-{d}", "{s}{d}e", "{s}{d}_{d}", "{s}{d}__{d}", "_{d}", "{d}_",
-             "{s}{d},{d}", "0x{d}", "0b101", "0o17", "{s}{d}j", "{s}{d}%", "{s}{d}/{d}", "1e400", "1e-400", "½", "²", "٣.٥"]
+             "{s}{d},{d}", "1e999", "-1e999", "1e309", "0x{d}", "0b101", "0o17", "{s}{d}j", "{s}{d}%", "{s}{d}/{d}", "1e400", "1e-400", "½", "²", "٣.٥"]
 WORDS = ["nan", "NaN", "NAN", "inf", "Inf", "INF", "infinity", "Infinity", "-inf", "+nan", "-Infinity", "in f", "nano", "infinit",
          "true", "false", "True", "False", "TRUE", "FALSE", "tRuE", "fAlse", "yes", "no", "on", "off", "t", "f", "1", "0", "null", "None",
          "truee", " true", "true ", "ｔｒｕｅ", "ſalse"]
@@ -79,6 +79,8 @@ def gen_cases_for(tier_, seed_):
     # disabled types through the library registry API
     for name in NAMES + list(ACTUAL.values()) + ["str", "String", "Int", "dat", "IsoDate"]:
         cases.append({"kind": "disable", "name": name, "strings": rng.sample(strings, min(len(strings), 300))})
+    for name in ["date", "time", "datetime", "IsoTimeString", "IsoDatetimeString"]:
+        cases.append({"kind": "disable", "name": name, "registered_twice": True, "strings": rng.sample(strings, min(len(strings), 300)) + ["10:30:00", "2018-01-02T10:30:00", "2018-01-02"]})
     # multi-string fields end to end
     for i in range(300 if tier_ == "quick" else 5000):
         r = rng_for(PROP, "multi", seed_, i)
@@ -228,6 +230,10 @@ def run_case(case):
     elif kind == "disable":
         reg = driver.make_str_registry(NAMES)
         name = case["name"]
+        if case.get("registered_twice"):
+            # what repeated CLI runs with --datetime in one process do: the datetime classes are registered again
+            from json_to_models.dynamic_typing import register_datetime_classes
+            register_datetime_classes(reg)
         reg.remove_by_name(name)
         should_go = {n for n in NAMES if n == name or ACTUAL[n] == name}
         left = {c.__name__ for c in reg}
